@@ -338,10 +338,19 @@ func (a *FuncAn) check(b *ssa.BasicBlock, goals []Goal) (bool, string) {
 		}
 	}
 	var ts []string
+	all := Lin{}
 	for _, g := range goals {
 		ts = append(ts, g.Text)
+		for _, t := range g.L.t {
+			if all.Coef(t.a) == 0 {
+				all = Add(all, AtomLin(t.a), 1)
+			}
+		}
 	}
-	return true, strings.Join(ts, ", ") + " from " + a.factsText(b, Lin{})
+	if len(all.t) == 0 {
+		return true, strings.Join(ts, ", ") + " (constant)"
+	}
+	return true, strings.Join(ts, ", ") + " from " + a.factsText(b, all)
 }
 
 // DebugAllFacts makes failure texts list every fact of the block (LWDEBUG=facts).
